@@ -28,6 +28,18 @@ E3 configuration explorer.  Four kinds of cells, all enumerated completely insid
                integer array) x {0, basis, generic points}.
 * ``user``   : UserDefinedDistribution / gallery BivariateGaussian.
 
+Facet ``origin`` (how the distribution object was obtained), crossed with the configurations of the fam cells
+(all), of the Gaussian cells (data shapes x paths x factor kinds; unconditional and two conditioning variables) and
+of the MRF cells (bc x order x geometry; none / one / two conditioning variables): constructed directly / copy.copy /
+copy.deepcopy / conditioning on nothing / reduction of a JointDistribution with one fixed variable (and a copy of the
+result) / with two fixed variables at once and stepwise in both orders / the joint's get_density member after the
+joint was conditioned / the member of the partially conditioned joint.  The fixed variables are the variables the
+distribution depends on (callable / None parameters) completed by unrelated ones; their priors are Gamma / Normal /
+Laplace with explicit reference log-densities.  All routes of one configuration run on ONE live base object, the
+joint's own member last.  Every object must show the same logpdf, pdf, cdf and support as the documented density
+(pdf integrates to one in 1-D), logd - logpdf constant in x, and for a reduced joint equal to the documented
+log-densities of the fixed variables.
+
 Signatures name only those facets that discriminate failing from passing configurations inside a cell.
 The references are explicit textbook formulas written here (numpy / scipy.special only).
 """
@@ -44,8 +56,14 @@ RULE = ("cells = {gauss: target x parameterisation x dim x overall scale of the 
         "[x representation of datum {float64, integer} x representation of mean {float, integer}] | dims x "
         "passing forms [x representation] | bc x order x geometry x location x hyper-parameter forms) x the whole "
         "point alphabet and compares logpdf/pdf/cdf/logd with explicit reference formulas (dense numpy slogdet / "
-        "solve on the scaled matrix; plus quadrature in 1-D); each inner configuration is a state; a cell is "
-        "non-trivial when at least one configuration was constructed and compared")
+        "solve on the scaled matrix; plus quadrature in 1-D of exp(logpdf) and of pdf); facet origin = how the object "
+        "was obtained {direct, copy, deepcopy, conditioning on nothing, joint distribution reduced with 1 fixed "
+        "variable (+ copy of it), with 2 fixed variables {at once, a then b, b then a}, get_density member of the "
+        "conditioned joint, member of the partially conditioned joint} crossed with the configurations (fam: all; "
+        "Gaussian / MRF: the configurations with 0, 1, 2 conditioning variables), all routes on one live base "
+        "object, same observables + logd - logpdf = reference log-density of the fixed variables; each inner "
+        "configuration x origin is a state; a cell is non-trivial when at least one configuration was constructed "
+        "and compared")
 BOUND = {
     "quick": "one value catalogue (seed mod 3). Gaussian: 4 targets x 4 parameterisations x dims {1,2,3,75,76} x "
              "<=5 data shapes (3 sparse formats) x {dense,sparse path} x <=4 passing forms x 5 mean forms x <=2 "
@@ -60,11 +78,20 @@ BOUND = {
              "representation}) x dims {1,2,3,2x2} x <=9 passing forms x (5+2dim "
              "inside + <=2dim outside) points; 1-D quadrature to 1e-7. MRFs 1-D N=2..6, 2-D N=2..3, (bc=zero, "
              "order 0..2) + (order 1, neumann/periodic) x 7 location forms (5 + python int + integer array) x "
-             "<=4 hyper-parameter forms (float, 1-array, callable, python int)",
+             "<=4 hyper-parameter forms (float, 1-array, callable, python int). Origin facet: fam cells - all 10 "
+             "routes at parameter set 0 and the integer-valued set (integer representation), 5 routes (copy, joint "
+             "with 1 fixed, 2 fixed at once and b-then-a, member) at the other sets; per route 2 generic inside + "
+             "<=2 outside points x {logpdf, logd, pdf, cdf}, 1-D quadrature of pdf for the 1-fixed-variable "
+             "reduction; Gaussian (unscaled cells, dims {1,2,3}, and integer cells): 5 routes for (array datum, "
+             "vector mean) and (callable datum, callable mean) [integer cells: callable datum, vector mean] x all "
+             "data shapes / paths / factor kinds x all points of the cell x {logpdf, logd, pdf, cdf (dim<=2)}; MRFs: "
+             "5 routes for (location, hyper-parameter) in {(vector, float), (vector, callable), (callable, "
+             "callable)} x all bc / order / geometry x all points",
     "thorough": "all 3 value catalogues; Gaussian dims {1,2,3,4,5,74,75,76,77} with the complete basis and 4 "
                 "generic points; scale facet at dims {1,2,3,4,5,75,76} with all 5 mean forms; integer facet at "
                 "dims {1,2,3,4,76} with all 6 mean forms (scalar/vector/list x float/int); MRFs 1-D N=2..10, "
-                "2-D N=2..4 and the integer 1-array hyper-parameter form for GMRF; otherwise as quick",
+                "2-D N=2..4 and the integer 1-array hyper-parameter form for GMRF; origin facet: all 10 routes at "
+                "every parameter set of the fam cells, Gaussian origin routes at every dimension (integer cells: dims<=4); otherwise as quick",
 }
 ASSUMPTIONS = [
     "far-tail points of the iid families (centre +- 60/2000 scale, 2000 scale above / 2^-40 scale next to a finite bound, "
@@ -75,6 +102,12 @@ ASSUMPTIONS = [
     "only (not to the iid families / MRFs); representations other than float64, int64 and python int/float (e.g. "
     "float32, int32, bool) are not covered; integer-valued parameters are small integers (|v| <= 8)",
     "multi-dimensional normalisation is decided by the reference formula only; quadrature is used for dim 1",
+    "origin facet: joint distributions of at most 3 densities (x and <= 2 fixed variables), priors of the fixed "
+    "variables Gamma / Normal / Laplace (none of whose parameter names equals the variable's name), no likelihoods "
+    "(posteriors are C05's subject); the routes other than direct are examined only where the directly constructed "
+    "object's logpdf is right, on a reduced point alphabet; a route the library refuses (or that does not return "
+    "a single distribution of the right dimension) is skipped; the value of logd - logpdf is demanded only for "
+    "reduced joints (sum of the reference log-densities of the fixed variables), elsewhere only its constancy",
     "an exception is always accepted as a refusal (e.g. sparse non-diagonal matrices without cholmod, list-valued "
     "parameters of Normal/Uniform, Gaussian.cdf with a broadcast scalar mean); where logpdf is refused the "
     "un-normalised _logupdf is compared up to a constant",
@@ -128,6 +161,8 @@ class _Tally:
             for key in self.keys:      # in priority order; later keys are judged inside the earlier selection
                 tv = {t[key] for t in T if key in t}
                 fv = {f[key] for f, _, _ in F if key in f}
+                if key in ("obtained", "origin") and fv == {"direct"}:
+                    continue      # the other origins are examined only where the direct object is right: not a discriminating facet
                 if len(tv) > 1 and fv and fv != tv:
                     parts.append("%s=%s" % (key, "+".join(sorted(fv))))
                     T = [t for t in T if t.get(key) in fv]
@@ -368,8 +403,8 @@ def cells(tier, seed):
                        "origins": bool(dim <= 4)}
         for fam in FAMILIES:
             for ps in range(len(_PSETS[fam])):
-                yield {"kind": "fam", "family": fam, "pset": ps, "cat": k}
-            yield {"kind": "fam", "family": fam, "pset": "int", "cat": k}
+                yield {"kind": "fam", "family": fam, "pset": ps, "cat": k, "origins": "full" if (thorough or ps == 0) else "light"}
+            yield {"kind": "fam", "family": fam, "pset": "int", "cat": k, "origins": "full"}
         n1 = range(2, 11) if thorough else range(2, 7)
         n2 = range(2, 5) if thorough else range(2, 4)
         for fam in ("GMRF", "LMRF", "CMRF"):
@@ -779,12 +814,13 @@ def _gauss_config(cuqi, res, tally, cell, fac, shape, data, marg, mref, Sigma, s
             tally.ok("normalisation", fac)
         else:
             tally.fail("normalisation", fac, "density integrates to %r" % total)
-    if cell.get("origins") and (passing, mkind) in _G_ORIGIN_CONFIGS and fac.get("rep") != "float":
+    if cell.get("origins") and (passing, mkind) in (_G_ORIGIN_CONFIGS_INT if isint else _G_ORIGIN_CONFIGS) and fac.get("rep") != "float":
         _gauss_origins(cuqi, res, tally, cell, fac, g0, g, cond, pts, refv, mref, Sigma, skey, ctx)
 
 
-# provenance facet of the Gaussian: unconditional / one / two conditioning variables (scale factor s, mean mu)
-_G_ORIGIN_CONFIGS = (("array", "vector"), ("callable", "vector"), ("callable", "callable"))
+# provenance facet of the Gaussian: unconditional / two conditioning variables (scale factor s, mean mu); integer target: none / one (s)
+_G_ORIGIN_CONFIGS = (("array", "vector"), ("callable", "callable"))
+_G_ORIGIN_CONFIGS_INT = (("array", "vector"), ("callable", "vector"))      # (the integer target has no callable mean form)
 
 
 def _gauss_origins(cuqi, res, tally, cell, fac, g0, g, cond, pts, refv, mref, Sigma, skey, ctx):
@@ -1233,11 +1269,11 @@ def _family_config(cuqi, cls, res, tally, cell, fam, fac, shapes, dim, dl, sc, v
         return
     inside, outside = _fam_points(fam, eff, dim)
     R = {"inside": inside, "outside": outside, "cache": {}, "eff": eff, "Sigma": Sigma, "dim": dim, "tag": tag}
-    if not _family_observe(res, tally, cell, fam, fac, d0, d, cond, R, None):
-        return
+    if not _family_observe(res, tally, cell, fam, fac, d0, d, cond, R, None) or fac.get("rep") == "float":
+        return      # (the float64 control of the integer-valued parameter set is examined as constructed only)
     # provenance facet: the same distribution obtained on the other documented routes (copies, reduction of a
     # joint distribution with 1 / 2 fixed variables at once and stepwise, member of a joint) - same observables
-    for origin, obj, offset in _provenances(cuqi, res, d0, d, cond, k, _ORIGINS_FULL, dim):
+    for origin, obj, offset in _provenances(cuqi, res, d0, d, cond, k, _ORIGINS_FULL if cell.get("origins", "full") == "full" else _ORIGINS_LIGHT, dim):
         res.state(tag + "/" + fac.get("path", "") + "/" + origin)
         _family_observe(res, tally, cell, fam, dict(fac, obtained=_obtained(origin), origin=origin), None, obj, {}, R, offset)
 
@@ -1246,7 +1282,7 @@ def _family_observe(res, tally, cell, fam, fac, d0, d, cond, R, offset):
     """Compares the whole observable set of the object ``d`` with the documented density.  origin == direct: the
     complete point alphabet and input representations; other origins: 2 generic inside points + 2 outside points
     (the reference values are shared).  offset: documented value of logd - logpdf (None: only constancy is demanded).
-    Returns False where the object could not be evaluated at all."""
+    Returns True where logpdf could be evaluated and is right (the other origins are examined only there)."""
     eff, Sigma, dim, tag, cache = R["eff"], R["Sigma"], R["dim"], R["tag"], R["cache"]
     origin = fac["origin"]
     direct = origin == "direct"
@@ -1379,7 +1415,7 @@ def _family_observe(res, tally, cell, fam, fac, d0, d, cond, R, offset):
                     tally.ok("support", f2)
                 else:
                     tally.fail("support", f2, "logpdf = %r at a point %s the support (x=%s)" % (v, side, x.tolist()))
-                if not direct:
+                if not direct and v == -INF:      # (a function of logpdf: examined where logpdf vanishes)
                     st, v = _call(res, d.pdf, x)
                     if st == "ok":
                         if v == 0.0:
@@ -1417,7 +1453,7 @@ def _family_observe(res, tally, cell, fam, fac, d0, d, cond, R, offset):
     if good and dim == 1 and passing in ("plain", "callable") and not upto_const and fam != "SmoothedLaplace" \
             and (direct or origin == "joint1"):
         _family_quadrature(res, tally, fac, d, fam, eff, light=not direct, with_pdf=pdf_good)
-    return True
+    return bool(good)
 
 
 def _family_quadrature(res, tally, fac, d, fam, eff, light=False, with_pdf=True):
